@@ -1,5 +1,10 @@
 """C18 oracle: a persistent-update model of nested dict/list/tuple/ndarray trees.
 
+Leaf definition of the model: everything that is not a non-empty dict / list / tuple is
+a leaf - scalars, None, str, bytes, bytearray, range, deque, numpy scalars and arrays,
+empty containers. A root that is itself a leaf is handled by the leaf-root cases of
+vlib/props/C18.py (`leaves()` here lists only leaves below a container root).
+
 Pure Python (numpy only as a container). Nothing from the repository is imported here.
 
 Paths are lists of steps: ('k', key) addresses a mapping key, ('i', n) a sequence
@@ -10,9 +15,34 @@ vlib/props/C18.py).
 
 from __future__ import annotations
 
+import collections
+import warnings
+
 import numpy as np
 
 MISSING = object()
+
+# Sequence types that are neither list / tuple nor str: the model treats values of
+# these types as leaves (only dict / list / tuple are containers, see is_branch).
+SEQ_LEAF_TYPES = (bytes, bytearray, range, collections.deque)
+
+
+def is_seq_leaf(x):
+  return type(x) in SEQ_LEAF_TYPES
+
+
+def truth_class(x):
+  """Input class of a leaf: 'truthy' / 'falsy' / 'ambiguous' (bool(x) raises).
+
+  Only used to name the input class of a case (mechanism keys), never to compute
+  an expected value.
+  """
+  try:
+    with warnings.catch_warnings():
+      warnings.simplefilter('ignore')
+      return 'truthy' if bool(x) else 'falsy'
+  except ValueError:
+    return 'ambiguous'
 
 
 class Undefined(Exception):
